@@ -151,6 +151,101 @@ fn check_ctx(inst: &mut Inst, world: &World, prague: bool) -> Vec<(String, Strin
     bad
 }
 
+/// Activation heights of the Prague rules as documented in the README ("only usable after block
+/// 275_000 on Signet, and 923_369 on Mainnet"), read as "from that height on" like the crate's own
+/// signet tests do.
+pub fn prague_in_force(network: &str, height: u64) -> bool {
+    match network {
+        "mainnet" | "bitcoin" => height >= 923_369,
+        "signet" => height >= 275_000,
+        _ => true,
+    }
+}
+
+/// Child process: one linear history across the activation height of `network`.
+pub fn boundary_main(network: &str) {
+    crate::inst::set_config(network, true);
+    let act: u64 = if network == "signet" { 275_000 } else { 923_369 };
+    let mut inst = Inst::fresh();
+    let mut bad: Vec<(String, String)> = Vec::new();
+    let mut checked = Vec::new();
+    // genesis + S + Ctx, then idle blocks up to three below the activation height (committed in chunks)
+    let mut w = World::new();
+    for s in start_with_s() {
+        w.exec(&mut inst, &s);
+    }
+    for s in block(vec![TxSpec::Deploy { pk: 1, code: crate::asm::ctx_initcode(), len: DEFAULT_LEN }]) {
+        w.exec(&mut inst, &s);
+    }
+    let mut h = w.h.unwrap();
+    let target = act - 3;
+    while h < target {
+        let n = (target - h).min(50_000);
+        let r = inst.call("brc20_mine", json!([n, 1_700_000_000u64]));
+        if !r.is_ok() {
+            bad.push(("machinery".into(), format!("mining towards the activation height failed: {:?}", r.err_msg())));
+            break;
+        }
+        h += n;
+        inst.call("brc20_commitToDatabase", json!([]));
+    }
+    // the automaton continues from here; earlier idle blocks are not needed by the oracle
+    w.h = Some(h);
+    w.max_ever = Some(h);
+    w.uni.max_height = h;
+    let call_ctx = |pk: u8| TxSpec::Call { pk, tgt: ctx_tgt(), data: vec![0], len: DEFAULT_LEN };
+    let t_ctx = |n: u64| TxSpec::Transact { signer: 0, nonce: n, tgt: ctx_tgt(), data: vec![n as u8], len: DEFAULT_LEN };
+    // heights act-2 .. act+1: an inscription call, a signed transaction, a parked one drained in the next block
+    let plan: Vec<Vec<TxSpec>> = vec![vec![call_ctx(0), t_ctx(1)], vec![t_ctx(0)], vec![call_ctx(2), t_ctx(3)], vec![t_ctx(2)], vec![call_ctx(0)]];
+    for txs in plan {
+        for tx in txs {
+            w.exec(&mut inst, &Step::Tx(tx));
+        }
+        w.exec(&mut inst, &Step::Fin);
+        let height = w.h.unwrap();
+        let prague = prague_in_force(network, height);
+        for (k, d) in check_ctx(&mut inst, &w, prague) {
+            if !k.starts_with("note:") {
+                bad.push((k, format!("{} at height {} ({}): {}", network, height, if prague { "Prague in force" } else { "before Prague" }, d)));
+            } else {
+                checked.push(format!("{}@{}:{}", network, height, k));
+            }
+        }
+    }
+    drop(inst);
+    crate::inst::cleanup_scratch();
+    println!("@@BOUNDARY {}", serde_json::to_string(&json!({"network": network, "activation": act, "violations": bad, "checked": checked})).unwrap());
+}
+
+/// Parent side: both networks with a documented activation height, one child process each.
+pub fn boundary_pass() -> (Value, Vec<crate::explore::Violation>, Vec<String>) {
+    let exe = std::env::current_exe().expect("exe");
+    let children: Vec<(String, std::process::Child)> = ["signet", "mainnet"].iter().map(|n| (n.to_string(), std::process::Command::new(&exe).arg("c19-boundary").arg(n).stdout(std::process::Stdio::piped()).stderr(std::process::Stdio::null()).spawn().expect("spawn"))).collect();
+    let mut vs = Vec::new();
+    let mut errors = Vec::new();
+    let mut report = serde_json::Map::new();
+    for (net, ch) in children {
+        let o = ch.wait_with_output().expect("wait");
+        let so = String::from_utf8_lossy(&o.stdout).to_string();
+        match so.lines().rev().find(|l| l.starts_with("@@BOUNDARY ")) {
+            Some(l) => {
+                let v: Value = serde_json::from_str(&l["@@BOUNDARY ".len()..]).unwrap_or(Value::Null);
+                for x in v["violations"].as_array().cloned().unwrap_or_default() {
+                    let (k, d) = (x[0].as_str().unwrap_or("").to_string(), x[1].as_str().unwrap_or("").to_string());
+                    if k == "machinery" {
+                        errors.push(d);
+                    } else {
+                        vs.push(crate::explore::Violation { property: "C19".into(), kind: k, scenario: "activation-boundary".into(), start: net.clone(), path: vec![format!("linear history across block {}", v["activation"])], steps: vec![], detail: d });
+                    }
+                }
+                report.insert(net.clone(), json!({"activation_height": v["activation"], "context_checks": v["checked"].as_array().map(|a| a.len()).unwrap_or(0), "checked": v["checked"]}));
+            }
+            None => errors.push(format!("boundary pass for {} produced no result", net)),
+        }
+    }
+    (Value::Object(report), vs, errors)
+}
+
 fn oracle(sc: &Scenario) -> Option<BoundaryOracle<'static>> {
     let prague = sc.network == "regtest";
     Some(Box::new(move |inst: &mut Inst, world: &World, _outs: &[StepOut]| {
